@@ -12,8 +12,12 @@ RULE = ("Generated oriented manifold polygon surfaces (15 base shapes incl. tori
         "splits / merges / 1-3 splits / edge splits / flips, vertex renumbering, face permutation and rotation) x "
         "neighbourhood sorting on/off x a generated sequence of 10-60 connectivity queries on a fresh mesh (first query kind "
         "uniform over all kinds) followed by a full sweep of every kind over every element in a shuffled kind order on a second "
-        "fresh mesh. Every answer is compared with a reference computed from the face list alone. non-trivial = the mesh has an "
-        "interior edge and the sequence uses >=3 query kinds; distinct = distinct (faces, sort flag, sequence).")
+        "fresh mesh. Every answer is compared with a reference computed from the face list alone. Unused vertices are inserted at id "
+        "0 / in the middle / at the end, a vertex attribute called 'border' with arbitrary flags may already be on the mesh, and the "
+        "duplicate-attribute switch is drawn. Size regime (huge): strips of 23300 / 33000 / 66000 quads (|V|^2 > 2**31, |V| or |F| > "
+        "2**16), every edge id in both orientations, border lists, all query kinds sampled at both ends of the id ranges. non-trivial = "
+        "the mesh has an interior edge and the sequence uses >=3 query kinds (huge: |V|^2 > 2**31); distinct = distinct (faces, sort "
+        "flag, sequence).")
 ASSUMPTIONS = ["input surfaces are oriented manifolds with a simple 1-skeleton and pairwise distinct face vertex sets "
                "(what the library's edge/face keys can represent)"]
 
@@ -28,6 +32,15 @@ KINDS = ["next_corner", "previous_corner", "opposite_corner", "corner_to_half_ed
 @st.composite
 def case_strategy(draw, max_faces=60):
     s = draw(G.surfaces(max_faces=max_faces, keep_isolated=draw(st.integers(0, 7)) == 0))
+    # vertices that no face uses (id 0, a middle id, the last id): their rings are empty and they are not on the border
+    V, F, tags = [list(v) for v in s["V"]], [list(f) for f in s["F"]], list(s["tags"])
+    for _ in range(draw(st.sampled_from([0, 0, 0, 1, 2, 3]))):
+        pos = draw(st.sampled_from([0, len(V) // 2, len(V)]))
+        V.insert(pos, [float(draw(st.integers(-3, 3))), float(draw(st.integers(-3, 3))), 0.5])
+        F = [[i + 1 if i >= pos else i for i in f] for f in F]
+        if "unused-vertex-inserted" not in tags:
+            tags.append("unused-vertex-inserted")
+    s = {"V": V, "F": F, "tags": tags}
     nq = draw(st.integers(10, 60))
     first = draw(st.sampled_from(KINDS))
     rest = draw(st.lists(st.tuples(st.sampled_from(KINDS), st.integers(0, 10 ** 6), st.integers(0, 10 ** 6), st.integers(0, 10 ** 6)),
@@ -39,7 +52,11 @@ def case_strategy(draw, max_faces=60):
             # how the mesh object under test is produced: directly, or written to a file and loaded back
             "via": draw(st.sampled_from([None, None, None, "obj", "mesh", "geogram_ascii"])),
             # element ids handed to the queries as numpy integers (what loops over numpy arrays produce); face rows as list / tuple / numpy
-            "np_ids": draw(st.integers(0, 3)) == 0, "form": draw(st.sampled_from(["list", "list", "tuple", "numpy"]))}
+            "np_ids": draw(st.integers(0, 3)) == 0, "form": draw(st.sampled_from(["list", "list", "tuple", "numpy"])),
+            # a vertex attribute called "border" (the name the mesh uses for its own flags) already on the mesh, with arbitrary flags;
+            # the library-wide switch that makes create_attribute hand back an existing attribute
+            "pre_border": draw(st.sampled_from([None, None, None, "bool", "bool", "int"])), "pre_border_seed": draw(st.integers(0, 1000)),
+            "dup_warn": draw(st.integers(0, 3)) == 0}
 
 
 def pick_pair(ref, medges, a, b):
@@ -208,10 +225,13 @@ def do_query(m, ref, medges, eid, sort_on, q, ctx, where):
             fl = [x % nV for x in (a, b, c)]
         ok, r = call(C.face_id, *fl)
         if ok:
-            exp = None
-            for k2, g in enumerate(ref.F):
-                if key(g) == key(fl):
-                    exp = k2
+            fmap = getattr(ref, "_face_by_key", None)
+            if fmap is None:
+                fmap = {}
+                for k2, g in enumerate(ref.F):
+                    fmap[key(g)] = k2          # (face vertex sets are pairwise distinct; the last one would win as before)
+                ref._face_by_key = fmap
+            exp = fmap.get(key(fl))
             ctx.check(r == exp, sig, f"{where}: face_id{tuple(fl)} = {r!r}, expected {exp!r}")
     elif kind == "edge_id":
         u, v = pick_pair(ref, medges, a, b)
@@ -295,6 +315,20 @@ def do_query(m, ref, medges, eid, sort_on, q, ctx, where):
 
 def build(case):
     import mouette as M
+    M.config.display_duplicate_attribute_warning = bool(case.get("dup_warn", False))
+    m = _build(case)
+    if case.get("pre_border"):
+        rnd = random.Random(case.get("pre_border_seed", 0))
+        typ = bool if case["pre_border"] == "bool" else int
+        a = m.vertices.create_attribute("border", typ, dense=bool(rnd.randrange(2)))
+        for v in range(len(m.vertices)):
+            if rnd.randrange(2):
+                a[v] = typ(1)
+    return m
+
+
+def _build(case):
+    import mouette as M
     M.config.sort_neighborhoods = bool(case["sort"])
     E = None
     if case.get("declare_edges"):
@@ -339,6 +373,8 @@ def fn(case, ctx):
         ctx.label(t)
     ctx.label("sort=" + str(case["sort"]), "via=" + str(case.get("via")), "ids=" + ("numpy" if case.get("np_ids") else "int"), "form=" + case.get("form", "list"))
     ctx.label("first=" + case["queries"][0][0])
+    if case.get("pre_border"): ctx.label("pre-existing-border-attribute=" + case["pre_border"])
+    if case.get("dup_warn"): ctx.label("duplicate-attribute-switch-on")
     has_inner = any(not ref.edge_on_border(*e) for e in ref.uedges)
     kinds = set(q[0] for q in case["queries"])
     ctx.nontrivial(has_inner and len(kinds) >= 3)
@@ -462,8 +498,77 @@ def fn_polyline(case, ctx):
                     ctx.check(tuple(ints(r)) == medges[e], "polyline:e2v", f"edge_to_vertices({e}) = {r}")
 
 
+# ----------------------------------------------------------------------------- size regime: ids and products beyond 2**16 / 2**31
+
+@st.composite
+def huge_case(draw):
+    # a strip of n quads (optionally split into triangles): 2n+2 vertices, 3n+1 (4n+1) edges. n = 23300 -> |V|^2 > 2**31;
+    # n = 33000 -> |V| > 2**16; n = 66000 -> |F| > 2**16 and |V|^2 > 2**32. A recipe realised in fn.
+    return {"n": draw(st.sampled_from([66000, 23300, 33000, 66000])), "tri": draw(st.booleans()), "sort": draw(st.booleans()),
+            "reverse_faces": draw(st.booleans()), "reverse_vertices": draw(st.booleans()), "seed": draw(st.integers(0, 10 ** 6))}
+
+
+def fn_huge(case, ctx):
+    import mouette as M
+    n = case["n"]
+    nV = 2 * n + 2
+    V = [[float(i // 2), float(i % 2), 0.0] for i in range(nV)]
+    F = []
+    for i in range(n):
+        q = [2 * i, 2 * i + 2, 2 * i + 3, 2 * i + 1]
+        if case["tri"]:
+            F += [[q[0], q[1], q[2]], [q[0], q[2], q[3]]]
+        else:
+            F.append(q)
+    if case["reverse_vertices"]:
+        V = V[::-1]; F = [[nV - 1 - v for v in f] for f in F]
+        F = [f[::-1] for f in F]          # keep the orientation (the renumbering mirrored the strip)
+    if case["reverse_faces"]:
+        F = F[::-1]
+    ref = SurfRef(nV, F)
+    c2 = dict(case); c2.update({"V": V, "F": F, "form": "list"})
+    m = _build(c2)
+    ctx.label(f"n={n}", "tri" if case["tri"] else "quad", "sort=" + str(case["sort"]))
+    ctx.nontrivial(nV * nV > 2 ** 31)
+    medges, ok = edges_of(m, ref, ctx)
+    if not ok:
+        return
+    eid = {e: i for i, e in enumerate(medges)}
+    C = m.connectivity
+    nE, nF, nC = len(medges), len(F), ref.nC
+    # every edge id, both orientations (packed keys a*|V|+b exceed 2**31 / 2**32 here)
+    for i, (a, b) in enumerate(medges):
+        r1, r2 = C.edge_id(a, b), C.edge_id(b, a)
+        if not ctx.check(r1 == i and r2 == i, "huge:edge_id", f"strip of {n} quads ({nV} vertices, {nE} edges): edge_id({a},{b}) = {r1!r}, edge_id({b},{a}) = {r2!r}, expected {i}"):
+            return
+    ok, be = ctx.call("huge:boundary_edges", lambda: m.boundary_edges)
+    if ok:
+        exp = sorted(eid[e] for e in ref.uedges if ref.edge_on_border(*e))
+        ctx.check(sorted(ints(be)) == exp, "huge:boundary_edges", f"{nE} edges: boundary_edges has {len(be)} entries, expected {len(exp)}; first difference around {sorted(set(ints(be)) ^ set(exp))[:4]}")
+    ok, bv = ctx.call("huge:boundary_vertices", lambda: m.boundary_vertices)
+    if ok:
+        ctx.check(sorted(ints(bv)) == list(range(nV)), "huge:boundary_vertices", f"every vertex of a strip is on the border; boundary_vertices has {len(bv)} of {nV}")
+    rnd = random.Random(case["seed"])
+    pick = lambda N: sorted(set(list(range(min(N, 40))) + list(range(max(0, N - 300), N)) + [rnd.randrange(N) for _ in range(300)]))
+    qs = []
+    for c in pick(nC):
+        qs += [[k, c, 0, 0] for k in ("next_corner", "previous_corner", "opposite_corner", "corner_to_half_edge", "corner_to_face")]
+    for e in pick(nE):
+        qs += [[k, 5 * e + 1, o, 0] for k in ("half_edge_to_corner", "direct_face", "edge_to_faces", "is_edge_on_border") for o in (0, 1)]
+        qs += [["edge_to_vertices", e, 0, 0]]
+    for v in pick(nV):
+        qs += [[k, v, 0, 0] for k in ("vertex_to_vertices", "vertex_to_faces", "vertex_to_corners", "vertex_to_edges", "is_vertex_on_border")]
+    for f in pick(nF):
+        qs += [[k, f, 0, 0] for k in ("face_to_vertices", "face_to_edges", "face_to_corners", "face_to_first_corner", "face_to_faces")]
+        qs += [["face_id", f, rnd.randrange(100), 1]]
+    rnd.shuffle(qs)
+    for q in qs:
+        do_query(m, ref, medges, eid, case["sort"], q, ctx, f"huge strip n={n}")
+
+
 SUBCHECKS = [
     SubCheck("surface_queries", case_strategy(), fn, quick=800, thorough=2500),
+    SubCheck("huge", huge_case(), fn_huge, quick=1, thorough=1, watchdog=(300, 600)),
     SubCheck("polyline_queries", polyline_case(), fn_polyline, quick=400, thorough=2000),
 ]
 
